@@ -216,6 +216,13 @@ def run(ctx: Ctx) -> None:
     r.check({"values", "valid_bit", "decoded_address"} <= stored, "CacheBlock.write", f.loc(),
             f"CacheBlock.write stores only {sorted(stored)} (values, valid_bit, decoded_address needed)")
 
+    from ..lanerule import lane_rule
+    from ..siblingrule import sibling_rule
+    from .c03 import alloc_rule
+    lane_rule(ctx, "R12.lane")
+    sibling_rule(ctx, "R12.sib", groups=[("WriteBackMemorySystem", "write"), ("WriteThroughMemorySystem", "write")])
+    alloc_rule(ctx, "R12.alloc")
+
     r = ctx.rule("R12.view", "memory table exposes the lower memory")
     f = m.method("BaseCacheMemorySystem", "wordwise_repr", own=True)
     rets = [n for n in walk_no_nested(f.node) if isinstance(n, ast.Return)]
